@@ -431,21 +431,32 @@ def mem_type_to_id(ctx, F, inst, adt, inv, MID):
     if len(rb) != 1:
         return ctx.fail("CLASSIFY", name + ":shape", "%s has one return" % name, site(inst), "%d returns" % len(rb))
     rt = tb.read(0, (), (rb[0], len(body.stmts(rb[0]))))
-    # expect wrap(phi local)
-    inner = []
-    ok = is_wrap(rt, lambda x: inner.append(s(x)) or True, "MemoryAreaTypeId")
-    if not ok or not inner or inner[0][0] != "opq" or inner[0][1] != "phi":
-        return ctx.fail("CLASSIFY", name + ":shape", "%s returns the wrapper of the matched integer" % name, site(inst),
-                        "return term %s" % G.show(rt))
-    L = inner[0][2]
-    # forward interval propagation over discriminant
     variants = adt["variants"]
     dom = ((0, len(variants) - 1),)
-    # reuse classify by temporarily treating local L as the return place
-    pieces = classify_local(F, body, tb, L, dom)
-    if pieces is None:
-        return ctx.fail("CLASSIFY", name + ":shape", "%s is a match on the variant" % name, site(inst), "UNRECOGNISED")
-    it, pcs = pieces
+    # form 1: wrap(phi local) - the match computes the integer, one wrapper at the end
+    inner = []
+    ok = is_wrap(rt, lambda x: inner.append(s(x)) or True, "MemoryAreaTypeId")
+    if ok and inner and inner[0][0] == "opq" and inner[0][1] == "phi":
+        L = inner[0][2]
+        # reuse classify by temporarily treating local L as the return place
+        pieces = classify_local(F, body, tb, L, dom)
+        if pieces is None:
+            return ctx.fail("CLASSIFY", name + ":shape", "%s is a match on the variant" % name, site(inst), "UNRECOGNISED")
+        it, pcs = pieces
+    else:
+        # form 2: every arm builds the wrapper itself - classify the return place and unwrap each arm's value
+        try:
+            it, pcs0, _tb2 = CL.classify(F, inst, domain=dom)
+        except CL.Unrecognised as e:
+            return ctx.fail("CLASSIFY", name + ":shape", "%s returns the wrapper of the matched integer" % name, site(inst),
+                            "return term %s; per-arm classification: %s" % (G.show(rt), e))
+        pcs = []
+        for (iv, val, bb) in pcs0:
+            got = []
+            if not is_wrap(val, lambda x: got.append(x) or True, "MemoryAreaTypeId") or not got:
+                return ctx.fail("CLASSIFY", name + ":shape", "%s returns the wrapper of the matched integer in every arm" % name, site(inst),
+                                "arm value %s" % G.show(val))
+            pcs.append((iv, got[0], bb))
     subject = s(it[1]) if it[0] == "discr" else None
     good_all = True
     seen = set()
